@@ -1,13 +1,13 @@
 (** C18 — files outside the supported subset are refused, not misread.
     Statements only; proofs in PQ.RefuseProofs (page level) and
-    PQ.ForeignProofs (file level, added when it lands).  [supported_page] and
+    PQ.ForeignProofs (file level).  [supported_page] and
     [page_data] are the model of fields.go supportedPage / pageData (fix
     e8bb9d0): the only page the reader decodes is a v1 data page with PLAIN
     values and, where the column has levels, RLE levels, in one of the three
     codecs; everything else makes the column read return an error before any
     byte of the page is interpreted. *)
 From Coq Require Import List NArith ZArith.
-From PQ Require Import Bytes Rle MetaTypes Io Reader RefuseProofs.
+From PQ Require Import Bytes Schema Rle MetaTypes Io Reader RefuseProofs Foreign ForeignProofs.
 Import ListNotations.
 
 Theorem C18_only_v1_plain_rle_is_decoded : forall ph d r dph,
@@ -43,3 +43,28 @@ Theorem C18_other_codecs_refused : forall decompress codec ph s,
   page_data decompress codec ph s = Err.
 Proof. exact page_data_unsupported_codec. Qed.
 Print Assumptions C18_other_codecs_refused.
+
+(** File level: an otherwise conformant foreign file (any legal encoding
+    choices) in which one column chunk - any row group g, any column j, any
+    page p - uses one unsupported feature (dictionary page, index page,
+    DATA_PAGE_V2, a value encoding other than PLAIN, BIT_PACKED levels on a
+    column that has them, another codec): the reader does not panic, reports an
+    error (from the constructor when g = 0, from Error() otherwise) and delivers
+    exactly the records of the row groups before g. *)
+Theorem C18_unsupported_refused :
+  forall (compress : Z -> bytes -> bytes) (decompress : Z -> bytes -> option bytes),
+  (forall c x, In c [CODEC_UNCOMPRESSED; CODEC_SNAPPY; CODEC_GZIP] -> decompress c (compress c x) = Some x) ->
+  (forall x, compress CODEC_UNCOMPRESSED x = x) ->
+  forall fs fc batches g j p inj,
+  fshape_ok fs -> Forall (fbatch_ok fs) batches -> choices_ok fc ->
+  fc_inject fc = Some (g, j, p, inj) ->
+  injection_effective compress fs fc batches g j p inj ->
+  fsizes_ok compress fs fc batches ->
+  let o := read_all decompress fs (foreign_file compress fs fc batches) in
+  o_panic o = false /\
+  (o_open_ok o = false \/ o_err o = true) /\
+  o_recs o = concat (firstn g batches) /\
+  (g = 0%nat -> o_open_ok o = false) /\
+  (g <> 0%nat -> o_open_ok o = true /\ o_err o = true).
+Proof. exact unsupported_refused. Qed.
+Print Assumptions C18_unsupported_refused.
